@@ -367,12 +367,24 @@ class C15(Prop):
             ob["exception_msg"] = str(e)[:200]
             ob["tb"] = traceback.format_exc()[-1200:]
             return ob
+        if case.get("sweep", case["seed"] % 3 == 0):
+            # a parameter sweep: ANOTHER Lindbladian generated from the same Hamiltonian object with other rates and other
+            # jump matrices under the same labels must not change the first one (read only afterwards)
+            try:
+                lb.generate_lindbladian(ham, jops, {k: 2.0 * v + 1.0 for k, v in jdict.items()},
+                                        {k: (v + 1.0 if k != "1" else v) for k, v in jco.items()},
+                                        ket_suffix=case["suffix"][0], bra_suffix=case["suffix"][1])
+            except Exception:  # noqa
+                pass
+            ob["swept"] = True
         ob["terms"] = [[Fraction(t[0]), t[1], [[k, v] for k, v in t[2].items()]] for t in lind.terms]
         ob["conv_keys"] = list(lind.conversion_dictionary.keys())
         ob["conv"] = {k: np.asarray(v) for k, v in lind.conversion_dictionary.items()}
         ob["coeff_keys"] = list(lind.coeffs_mapping.keys())
         ob["coeffs"] = {k: complex(v) for k, v in lind.coeffs_mapping.items()}
-        ob["inputs_untouched"] = bool(list(ham.conversion_dictionary) == list(hconv) and len(ham.terms) == len(case["hterms"]))
+        ob["inputs_untouched"] = bool(list(ham.conversion_dictionary) == list(hconv) and len(ham.terms) == len(case["hterms"])
+                                      and list(ham.coeffs_mapping.items()) == list(hco.items())
+                                      and all(np.array_equal(ham.conversion_dictionary[k], hconv[k]) for k in hconv))
         # dense matrix of the generated terms: ket sites then bra sites
         sites = case["sites"]
         ks, bs = case["suffix"]
